@@ -31,7 +31,13 @@ class CsvProjectIo(ProjectIoInterface):
         -------
             :class:`Parameters
         """
-        df = pd.read_csv(file_name, skipinitialspace=True, na_values=["None", "none"], sep=sep)
+        df = pd.read_csv(
+            file_name,
+            skipinitialspace=True,
+            na_values=["None", "none"],
+            sep=sep,
+            float_precision="round_trip",
+        )
         df.columns = [column.lower() for column in df.columns]
         df = df.rename(columns=OPTION_NAMES_DESERIALIZED)
         safe_dataframe_fillna(df, "minimum", -np.inf)
